@@ -753,6 +753,8 @@ def register_core(M):
             return v          # &Vec<T> -> &[T]: same object
         if st == 'LazyLock':
             return M.force_lazy(ex, a[0])
+        if st in ('Ref', 'RefMut') and isinstance(ex.materialize(M.load(ex, a[0])), Adt):
+            return ex.materialize(M.load(ex, a[0])).fields[(None, 0)]       # std::cell::Ref / RefMut guard
         if st == 'MutexGuard':
             g = ex.materialize(M.load(ex, a[0]))
             return g.fields[(None, 0)]
@@ -858,6 +860,15 @@ def register_core(M):
         cell, path = ex.deref(a[0])
         ex.write_path(cell, path, M.load(ex, a[1]))       # values are immutable: cloning is sharing
         return UNIT
+
+    @reg('RefCell::new', 'Cell::new')
+    def _(ex, info, a, dty):
+        return Adt(dty or 'RefCell<?>', {(None, 0): a[0]})
+
+    @reg('RefCell::borrow', 'RefCell::borrow_mut')
+    def _(ex, info, a, dty):
+        cell, path = ex.deref(a[0])
+        return Adt('RefMut<?>' if info['method'] == 'borrow_mut' else 'Ref<?>', {(None, 0): Ref(cell, path + (('f', None, 0, '?'),))})
 
     @reg('Drop::drop')
     def _(ex, info, a, dty):
@@ -1076,6 +1087,8 @@ def _default_value(self, ex, ty):
     if s is not None:
         return self.zero(s)
     h = head(t)
+    if re.sub(r"'\w+\s*", '', t).replace(' ', '') in ('&str', 'String', 'std::string::String', 'alloc::string::String'):
+        return Obj('str', text='""')
     if h == 'Option':
         return self.none(t)
     if h == 'Vec':
